@@ -451,6 +451,9 @@ class Ctx:
         """regenerate Gen/*, build Properties_<pid>.vo (+extras) with make -k,
         collect assumptions, hygiene; fills coverage. Returns True iff all
         obligations are discharged."""
+        # the repo's cmake configure step generates include/veriblock/pop/ct_params.hpp in the source tree
+        # (a fresh worktree lacks it): make sure the library is configured before the generators read the headers
+        build_lib("rel")
         gen = regenerate()
         for name, ok, text in gen:
             if not ok:
